@@ -313,3 +313,25 @@ def run(ctx):
         r7.check(ok, "cancelled-read=>bad:" + short, "the elapsed arm of the timeout around the server read marks the connection bad before any further use", "after the timeout cancelled a server read mid-message the connection is read again (or handed on) without being marked bad", where, wit)
     if n == 0:
         r7.missing("timeout around Server::recv on the client path")
+
+    # ---------------- R8 a client read that was cancelled mid-message ends the client (D40)
+    r8 = ctx.rule("C03-R8", "read_message is not cancel-safe either (code byte, length and the part of the body already read live in the cancelled future): wherever Client::handle puts a timeout around it, "
+                  "the elapsed arm leaves handle without reading from that client again - otherwise the rest of the interrupted message is framed as new messages and forwarded to a server as requests the client never sent", floor=1)
+    hh8 = ctx.body("pgcat::client::Client::handle::{closure#0}", r8)
+    if hh8:
+        sw8 = switches(hh8)
+        reads8 = [c.block for c in hh8.calls("pgcat::messages::read_message", "re:AsyncBufReadExt::fill_buf$|AsyncReadExt::read(_exact|_u8|_i32|_buf)?$")]
+        n8 = 0
+        for t in hh8.calls("re:^tokio::time::timeout::timeout$"):
+            if not any(o.kind == "call" and o.call.name == "pgcat::messages::read_message" for o in origins(hh8, t.args[1])):
+                continue
+            n8 += 1
+            el, _, _ = discr_edges(hh8, r"core::result::Result<.*Elapsed>", "Err", origin_pred=lambda o, t=t: o.kind == "call" and o.call.block == t.block, switches_cache=sw8)
+            if not el:
+                r8.fail("cancelled-client-read=>gone#%d" % n8, "cannot find the elapsed arm of the timeout around read_message", t.where())
+                continue
+            w8 = hh8.uncrossed_path([d for _, d in el], reads8)
+            r8.check(w8 is None, "cancelled-client-read=>gone#%d" % n8, "after the deadline cancelled read_message the client is not read again (handle returns)",
+                     "after the deadline cancelled read_message (possibly in the middle of a message) handle goes on reading the same client: the unread rest of the message is taken for new messages", t.where(), w8 and hh8.describe_path(w8))
+        if n8 == 0:
+            r8.missing("timeout around read_message in Client::handle")
